@@ -59,7 +59,7 @@ def setup():
 CV_KINDS = ["distanceZ", "distance", "dihedral", "distanceVec", "gyration", "angle", "combo"]
 
 
-def gen_colvar(r, name):
+def gen_colvar(r, name, ext_ok=True):
     kind = r.choice(CV_KINDS)
     a = lambda: r.randint(1, NATOMS)
     L = ["colvar {", "  name " + name]
@@ -74,7 +74,7 @@ def gen_colvar(r, name):
         L.append("  outputVelocity on")
     if r.random() < 0.2:
         L.append("  outputAppliedForce on")
-    if scalar and r.random() < 0.2:
+    if scalar and r.random() < 0.2 and ext_ok:
         L += ["  extendedLagrangian on", "  extendedFluctuation 0.5", "  extendedTimeConstant 200.0"]
         opts["ext"] = True
     if r.random() < 0.15:
@@ -156,7 +156,7 @@ def gen_sequence(r, k, length, with_set=True):
     for i in range(length):
         x = r.random()
         if not cvs or x < 0.22:
-            c = gen_colvar(r, "v%d" % ncv); ncv += 1
+            c = gen_colvar(r, "v%d" % ncv, ext_ok=with_set); ncv += 1
             cvs.append(c)
             ev.append({"op": "addcv", "cv": c})
         elif x < 0.45:
@@ -191,12 +191,16 @@ def gen_sequence(r, k, length, with_set=True):
             else:
                 c = r.choice(cvs)
                 fid = r.choice([0, 3, 4, 5, 6, 7, 8, 10, 11, 12, 17, 18, 19, 20, 27, r.randint(0, 37)])
+                if fid in (28, 29):     # running average / correlation function: see finding F5 (fixed witness)
+                    fid = 27
                 ev.append({"op": "set", "kind": "colvar", "name": c["name"], "fid": fid, "val": r.randint(0, 1)})
-    return {"id": k, "samestep": samestep, "events": ev}
+    # identity stream: no extended-Lagrangian variables and engine total forces that do not contain the Colvars
+    # forces, so that a deleted bias cannot legitimately have changed the state of a survivor while it existed
+    return {"id": k, "samestep": samestep, "events": ev, "includecv": 1 if with_set else 0}
 
 
 def start_lines(seq):
-    L = ["natoms %d" % NATOMS, "samestep %d" % seq["samestep"], "temperature 300.0", "new"]
+    L = ["natoms %d" % NATOMS, "samestep %d" % seq["samestep"], "includecv %d" % seq.get("includecv", 1), "temperature 300.0", "new"]
     for a in range(1, NATOMS + 1):
         # a non-degenerate start configuration
         L.append("pos %d %r %r %r" % (a, 0.5 * a, 0.25 * ((a * 7) % 5) - 0.5, 0.125 * ((a * 3) % 7) + 0.25))
@@ -268,7 +272,7 @@ def survivors_only(seq):
         if e["op"] == "set" and (e["name"] in dead_cv or e["name"] in dead_b):
             continue
         out.append(e)
-    return {"id": seq["id"], "samestep": seq["samestep"], "events": out}, sorted(live_cv), sorted(live_b)
+    return {"id": seq["id"], "samestep": seq["samestep"], "events": out, "includecv": seq.get("includecv", 1)}, sorted(live_cv), sorted(live_b)
 
 
 # ------------------------------------------------------------------ output parsing
@@ -412,6 +416,10 @@ W_F4 = ("natoms 3\nnew\nconfig EOF\ncolvar {\n  name d\n  distanceVec {\n    gro
         "dumpdeps\ndepsop 0 enable 4 0 1 0\ndumpdeps\necho END\n")
 
 
+F5 = "script-set-running-average-sigfpe"
+W_F5 = ("natoms 2\nnew\nconfig EOF\n" + XZ + "EOF\nscriptset colvar x 28 1\npos 1 0 0 1.0\nstep\nstep\nstep\necho END\n")
+
+
 def run_scn(unit, d, text, name="w.scn"):
     p = os.path.join(d, name)
     open(p, "w").write(text)
@@ -442,6 +450,12 @@ def replay_witnesses(run, unit, d, tabs, model):
                       "enable, the bias adds and removes one reference, reaching 0 auto-disables it): %s instead of %s" % (
                           [l for l in A if l.startswith("CV")], [l for l in B if l.startswith("CV")]),
                       {"kind": "identity", "scenario": W_F2, "reference": W_F2_REF})
+    # F5: enabling the running average through the script interface leaves its length/stride 0: integer division by zero
+    rc, o, e = run_scn(unit, d, W_F5)
+    run.count("witness:F5", True)
+    if "echo END" not in o and rc in (-8, 136):
+        run.violation(F5, "`cv colvar x set \"running average\" 1` followed by a step kills the process with SIGFPE in colvar::calc_runave "
+                      "(runave_length/stride are 0 when the feature is not enabled from the configuration)", {"kind": "scenario", "scenario": W_F5})
     # F3: script "set <feature> off" of a feature with exactly one dependent
     rc, o, e = run_scn(unit, d, W_F3)
     dumps = D.parse_deps_blocks(o.split("\n"))
